@@ -36,7 +36,7 @@ Monitors (oracle = lib/c17_ref.py, float64 numpy, two independent routes cross-c
              XLA CPU contracts the multiply-add inside jit, measured 12% of elements differ, so BOTH
              candidates are computed exactly and either is accepted, nothing else);
              params_in_{i+1} == history[i] and final == history[-1] bitwise.
-  overlap    a family that also samples an observed address: the model must still see the observation.
+  overlap    (retired, see plan()) a family that also samples an observed address.
 """
 
 from __future__ import annotations
@@ -76,7 +76,6 @@ FLOORS = {
         "constraint_seen_checks": 10000,
         "vi_iterations_checked": 500,
         "vi_hook_events": 500,
-        "overlap_checks": 4,
     },
     "thorough": {
         "per_draw_value_checks": 60000,
@@ -87,7 +86,6 @@ FLOORS = {
         "constraint_seen_checks": 150000,
         "vi_iterations_checked": 1500,
         "vi_hook_events": 1500,
-        "overlap_checks": 8,
     },
 }
 TIMEOUT_S = {"quick": 1200, "thorough": 7200}
@@ -280,8 +278,12 @@ def plan(tier, seed):
                     }
                 )
                 idx += 1
-    # family that samples an observed address; library family with dict parameters handed to elbo_vi
-    for j, (kind, d, k, where) in enumerate((("chain", 2, 3, "top"), ("chain", 2, 3, "nested"), ("mvlg", 2, 3, "top"))):
+    # library family with dict parameters handed to elbo_vi.
+    # The "overlap" monitor (a family that also samples an OBSERVED address; the model must still see the
+    # observation) is retired: the property quantifies over variational families for the latents given the
+    # constraint and does not say what the objective means when q overwrites an observation, so demanding
+    # "the constraint wins" asked for more than the property states (DESIGN 8.7).  Code kept, no cases planned.
+    for j, (kind, d, k, where) in enumerate(()):
         rng = np.random.default_rng([seed, 17, 200000 + j])
         tgt = gen_target(rng, kind, d, k)
         fam = {"kind": "hw_chain", "d": 2, "est1": "reparam", "est2": "reparam"} if kind == "chain" else {"kind": "mf", "d": d, "est": "reparam"}
